@@ -453,3 +453,7 @@ def converters_keep_no_context_free_memo(ctx: Ctx) -> None:
 from .c08 import prefixes_resolved_never_matched  # noqa: E402
 
 share("C05", "C05.R7", prefixes_resolved_never_matched)
+
+from .c03 import no_prefix_rebinding  # noqa: E402
+
+share("C05", "C05.R8", no_prefix_rebinding)  # a QName serialised with a prefix map must parse back with the same map: generated prefixes never rebind
